@@ -211,6 +211,29 @@ def run(chk):
                 flat = ev.flatten(val)
                 term = flat[0][1]
                 ac = subterms(term, lambda t: t[0] == "fn" and t[1] == "acos", [])
+                if len(flat) == 1 and isinstance(term, tuple) and term[:2] == ("fn", "atan2") and len(term) == 4:
+                    # the alternative formulation atan2(|a x b|, a . b): in [0, pi] iff the first argument cannot be negative
+                    from .. import errdom
+                    y, x = term[2], term[3]
+                    signs = {n: "?" for n in ev.leaves(term)}
+                    _b, sy = errdom.err(y, T, signs)
+                    if sy not in ("+", "0"):
+                        chk.violated("R1", sig, "atan2(y, x) with y = %s of unknown sign: the result lies in (-pi, pi], not in [0, pi], and is not symmetric in the arguments" % ev.show(y)[:120], loc)
+                        continue
+                    conv = nf.Conv(positive=False)
+                    E0 = ev.Evaluator(F)
+                    ops = [shapes.to_sympy(conv, F, t, E0.symbolic(t, "p%d" % i))[0] for i, t in enumerate(ptypes)]
+                    A, B = ops
+                    cr = TA.cross(A, B)
+                    wy2, wx = TA.dot(cr, cr), TA.dot(A, B)
+                    na, nb = sympy.sqrt(TA.dot(A, A)), sympy.sqrt(TA.dot(B, B))
+                    okf = any(nf.equal(conv(y) ** 2, wy2 * k ** 2) and nf.equal(conv(x), wx * k) for k in (1, 1 / (na * nb), 1 / na, 1 / nb))
+                    if okf:
+                        chk.holds("R1", sig, "atan2 of a non-negative first argument: value in [0, pi]", loc)
+                        chk.holds("R2", sig, "atan2(|a x b|, a . b) up to a common positive factor", loc)
+                    else:
+                        chk.violated("R2", sig, "atan2(%s, %s) is not atan2(|a x b|, a . b)" % (ev.show(y)[:80], ev.show(x)[:80]), loc)
+                    continue
                 if len(flat) != 1 or not (isinstance(term, tuple) and term[:2] == ("fn", "acos")) or len(ac) != 1:
                     chk.violated("R2", sig, "the angle is not a single arc cosine: %s" % ev.show(term)[:200], loc)
                     continue
